@@ -46,6 +46,31 @@ Fixpoint twalk (t : node) (parts : list name) : res (option node) :=
     | Dir ch => match tfind (upper h) ch with None => Ok None | Some n => twalk n r end
     end
   end.
+(* the walk with '.' and '..' components, over the plain tree and a stack of the directories passed
+   (innermost first): below the root '.' stays and '..' pops; AT the root neither exists as such (the
+   root directory holds no dot entries), so they are looked up like any other name *)
+Fixpoint twalkd (stk : list node) (t : node) (parts : list name) : res (option node) :=
+  match parts with
+  | [] => Ok (Some t)
+  | h :: r =>
+    match t with
+    | File _ => Err NotADirectory
+    | Dir ch =>
+      let down := match tfind (upper h) ch with None => Ok None | Some n => twalkd (t :: stk) n r end in
+      match stk with
+      | [] => down
+      | p :: stk' =>
+        if FatNames.Model.beq (upper h) [46] then twalkd stk t r
+        else if FatNames.Model.beq (upper h) [46; 46] then twalkd stk' p r
+        else down
+      end
+    end
+  end.
+(* the nodes of a tree *)
+Inductive reach (root : node) : node -> Prop :=
+  | reach_root : reach root root
+  | reach_child ch nm c : reach root (Dir ch) -> In (nm, c) ch -> reach root c.
+
 (* apply [f] to the children of the directory at [dparts] *)
 Fixpoint tmod (t : node) (dparts : list name) (f : kids -> kids) : node :=
   match t with
